@@ -82,3 +82,5 @@ META = dict(
                 "classes and alphabets listed in the evidence rule (no fragments, URIs <= 1 KiB, encoder inputs <= 1 KiB)."),
     technique="runtime monitoring: generator-derived expected fields + reference codec/splitter + canaries + ASan/UBSan",
 )
+
+CFG["rule"] += (" " + 'Additions: one random URI in eight has a scheme of 20-300 characters; stage asan_latin1 repeats all cases under a single-byte libc locale; stages mt_tsan/mt_rel; stale aws_last_error()/errno.')
